@@ -153,7 +153,11 @@ func c13Generate(c *c13) {
 	sweeps := c.r.N(5000, 110000)
 	per := sweeps / traces
 	for i := 0; i < traces; i++ {
-		c13Trace(c, g, i)
+		if g.Chance(6) {
+			c13MultiTrace(c, g)
+		} else {
+			c13Trace(c, g, i)
+		}
 		for j := 0; j < per; j++ {
 			c13Sweep(c, g)
 		}
@@ -314,7 +318,20 @@ func c13Trace(c *c13, g *Rng, idx int) {
 
 	steps := 25 + g.Intn(45)
 	settled := false
+	restartAt := -1
+	if g.Chance(10) {
+		restartAt = g.Intn(steps + 12) // before or after settlement
+	}
 	for s := 0; s < steps; s++ {
+		if s == restartAt {
+			c.r.Hit("restart/in-single-plan-trace")
+			if settled {
+				c.r.Hit("restart/after-settlement")
+			}
+			if c.do("restart")[:2] != "ok" {
+				return
+			}
+		}
 		p, ok := c.plan()
 		if !ok {
 			return
@@ -557,5 +574,116 @@ func c13RoundTrip(c *c13, g *Rng, a int, curve irotypes.BondingCurve) {
 	}
 	if left.IsZero() {
 		c.r.Hit("roundtrip/completed")
+	}
+}
+
+// c13MultiTrace: several rollapps with a plan each (own curve), trades / settlement / claims interleaved
+// over the plans, restarts in between, plans created after a restart.
+func c13MultiTrace(c *c13, g *Rng) {
+	c.r.Hit("multi/trace")
+	L := c13RandL(g)
+	feeBase := L == 18 && g.Chance(50)
+	takerFee := c13Pick(g, "20000000000000000", "20000000000000000", "1000000000000000", "100000000000000000")
+	genAlloc := []math.Int{p10(21), p10(24), p10(19).Add(c13RandBelow(g, p10(24)))}[g.Intn(3)]
+	n := 3
+	c.do(fmt.Sprintf("reset %s %s 400000000000000000 0 0 %s %d %s %d", takerFee, p10(18), b01(feeBase), n, genAlloc, L))
+	type ms struct {
+		curve   irotypes.BondingCurve
+		budget  math.Int
+		created bool
+		settled bool
+	}
+	var sl []*ms
+	addSlot := func() {
+		if len(sl) > 0 {
+			c.do("newra")
+		}
+		m, nn, cc := c13Curve(g)
+		curve := irotypes.BondingCurve{M: c13Dec(m), N: c13Dec(nn), C: c13Dec(cc), RollappDenomDecimals: 18, LiquidityDenomDecimals: uint64(L)}
+		full := c13SafeCost(curve, math.ZeroInt(), genAlloc)
+		st := &ms{curve: curve, budget: c13Max(full.MulRaw(3), p10(L+2))}
+		sl = append(sl, st)
+		c.do(fmt.Sprintf("fund 0 %s", st.budget))
+		enabled := g.Chance(80)
+		o := c.do(fmt.Sprintf("create %s %s %s %s %d %s 0 %d %s %d %d", genAlloc, m, nn, cc, L, b01(enabled), int64(time.Hour), c13Pick(g, "400000000000000000", "500000000000000000", "1000000000000000000"), []int64{0, 3, int64(time.Hour)}[g.Intn(3)], []int64{0, 1}[g.Intn(2)]))
+		st.created = o[:2] == "ok"
+		for a := 1; a < n; a++ {
+			c.do(fmt.Sprintf("fund %d %s", a, c13Around(g, st.budget).AddRaw(1)))
+		}
+	}
+	k0 := 2 + g.Intn(3)
+	for i := 0; i < k0; i++ {
+		addSlot()
+	}
+	steps := 30 + g.Intn(40)
+	for s := 0; s < steps; s++ {
+		w := g.Intn(100)
+		switch {
+		case w < 6:
+			c.r.Hit("restart/in-multi-plan-trace")
+			if c.do("restart")[:2] != "ok" {
+				return
+			}
+			if g.Chance(50) && len(sl) < 7 {
+				c.r.Hit("multi/create-right-after-restart")
+				addSlot()
+			}
+			continue
+		case w < 10:
+			if len(sl) < 7 {
+				addSlot()
+			}
+			continue
+		case w < 35:
+			c.do(fmt.Sprintf("sel %d", g.Intn(len(sl))))
+			continue
+		case w < 40:
+			c.do(fmt.Sprintf("time %d", []int64{1, int64(time.Second), int64(time.Hour)}[g.Intn(3)]))
+			continue
+		}
+		st := sl[c.cur]
+		p, ok := c.plan()
+		if !ok {
+			c.do(fmt.Sprintf("buy 1 %s %s", p10(18), c13Huge)) // no plan for this rollapp
+			c.do(fmt.Sprintf("sel %d", g.Intn(len(sl))))
+			continue
+		}
+		a := g.Intn(n)
+		addr := c.actors[a]
+		iroBal := c.f.Bal(addr, c.iroDenom)
+		liqBal := c.f.Bal(addr, c.liq)
+		remaining := p.MaxAmountToSell.Sub(p.SoldAmt)
+		if st.settled {
+			switch g.Intn(5) {
+			case 0, 1:
+				c.do(fmt.Sprintf("claim %d", a))
+			case 2:
+				c.do("claimv 0")
+			case 3:
+				c.do(fmt.Sprintf("buy %d %s %s", a, p10(18), c13Huge))
+			default:
+				if iroBal.IsPositive() {
+					c.do(fmt.Sprintf("xfer %d %d %s", a, g.Intn(n), c13Around(g, iroBal).AddRaw(1)))
+				}
+			}
+			continue
+		}
+		switch {
+		case w < 60:
+			amt := c13Around(g, c13Max(remaining.QuoRaw(int64(2+g.Intn(20))), math.OneInt())).AddRaw(1)
+			c.do(fmt.Sprintf("buy %d %s %s", a, amt, c13Huge))
+		case w < 70:
+			spend := c13Around(g, c13Max(liqBal.QuoRaw(int64(3+g.Intn(30))), math.OneInt())).AddRaw(1)
+			c.do(fmt.Sprintf("bes %d %s 1", a, spend))
+		case w < 85:
+			c.do(fmt.Sprintf("sell %d %s 1", a, c13Around(g, c13Max(iroBal, math.OneInt()))))
+		case w < 90:
+			c.do("enable 0")
+		default:
+			if o := c.do(fmt.Sprintf("settle %s", genAlloc)); o[:2] == "ok" {
+				st.settled = true
+				c.r.Hit("multi/settled-one-of-many")
+			}
+		}
 	}
 }
